@@ -225,6 +225,9 @@ def conforms(value, spec):
     if isinstance(spec, dict) and spec.get("__class__") == "StrKeyDict":
         return isinstance(value, dict) and set(value) == set(spec) - {"__class__"}
     if isinstance(spec, dict):
+        cls = spec.get("__class__")
+        if cls and not isinstance(value, type):
+            return cls in [k.__name__ for k in type(value).__mro__]
         return True
     ty = parse_ty(spec) if isinstance(spec, str) else spec
     if not isinstance(ty, Ty):
@@ -297,6 +300,8 @@ class Monitor:
         self.max_failures = max_failures
         self.concrete_env = concrete_env or {}
         self._depth = 0
+        self._in_spec = False
+        self.max_checked_calls = 4000        # per function under contract; later calls run unchecked (counted as beyond_cap)
 
     def __enter__(self):
         for c in self.contracts:
@@ -358,11 +363,26 @@ class Monitor:
         extra = dict(self.concrete_env)
         extra.update(getattr(c, "concrete_env", {}) or {})
 
+        _ev = globals()["eval_clause"]
+
+        def eval_clause(text, env, extra=None):
+            prev = mon._in_spec
+            mon._in_spec = True
+            try:
+                return _ev(text, env, extra)
+            finally:
+                mon._in_spec = prev
+
         @functools.wraps(fn)
         def wrapper(*args, **kwargs):
             if mon._depth > 0 and getattr(c, "no_reentrant", False):
                 return fn(*args, **kwargs)
+            if mon._in_spec:
+                return fn(*args, **kwargs)      # a call made BY a clause under evaluation (e.g. `x in terms` -> Term.__eq__) is not a workload call
             st["calls"] += 1
+            if st["pre_ok"] >= mon.max_checked_calls:
+                st["beyond_cap"] = st.get("beyond_cap", 0) + 1
+                return fn(*args, **kwargs)
             try:
                 b = sig.bind(*args, **kwargs)
                 b.apply_defaults()
@@ -401,6 +421,8 @@ class Monitor:
             try:
                 for nm, text in c.lets.items():
                     env[nm] = eval_clause(text, env, extra)
+                    if isinstance(env[nm], (dict, list, set)):
+                        env[nm] = copy.copy(env[nm])      # entry-state value: the function may mutate the container in place
                     env["old_" + nm] = env[nm]
                 pre = all(eval_clause(r, env, extra) for r in c.requires)
             except Exception as ex:
